@@ -9,7 +9,7 @@ Prints one line per property: <Cxx> exit=<n> violations=<k> [first signature]; e
 """
 import os, re, shutil, subprocess, sys, json
 
-SCR = "/tmp/selftest"
+SCR = os.environ.get("SELFTEST_SCR", "/tmp/selftest")
 def sh(cmd, **kw):
     return subprocess.run(cmd, shell=True, capture_output=True, text=True, **kw)
 
